@@ -25,7 +25,8 @@ def build_project_sig(sig, names):
             table_name=names.table(ms['table']) if ms['table'].startswith('t_') else ms['table'],
             pk_column='id',
             unique_together=[tuple(names.field(x) for x in t) for t in ms['ut']],
-            unique_together_applied=bool(ms.get('uta', True)))
+            unique_together_applied=bool(ms.get('uta', True)),
+            db_table_comment=ms.get('comment'))
         for ix in ms.get('idx') or []:
             msig.add_index_sig(IndexSignature(
                 fields=[names.field(x) for x in ix['fields']],
